@@ -24,7 +24,14 @@ def set_size(size: int):
         wrapped = cached.__wrapped__
         resized = lru_cache(size)(wrapped)
         _cached[i] = resized
-        setattr(sys.modules[wrapped.__module__], wrapped.__name__, resized)
+        # the modules that imported the function by name must get the resized wrapper
+        # too: the former one is not reset anymore
+        package = __name__.split(".")[0]
+        for module_name, module in list(sys.modules.items()):
+            if module is not None and module_name.split(".")[0] == package:
+                for attr, value in list(vars(module).items()):
+                    if value is cached:
+                        setattr(module, attr, resized)
 
 
 K = TypeVar("K")
